@@ -70,6 +70,7 @@ def run(ctx):
         mod = ctx.mod(cfg)
         _orderkey(ctx, cfg, prog, mod)
         _indexsrc(ctx, cfg, prog, mod)
+        _orderhash(ctx, cfg, prog, mod)
         rts = roots(prog, mod)
         ctx.floor('determinism roots (constructors + exported &mut operations)', 30, len(rts), cfg)
         reach = prog.reachable_from(rts)
@@ -409,3 +410,107 @@ def _indexsrc(ctx, cfg, prog, mod):
                     'positions of the caller\'s listing applied to the ordered buffer make the initial simplex listing-dependent'
             ctx.ob('INDEXSRC', b.root or q, cfg, ok, why, site='%s:%d' % (b.file, t.line))
     ctx.floor('reorder_vertices_for_simplex call sites', 1, n, cfg)
+
+
+VERTEX_TYS = ('core::vertex::Vertex<',)
+
+
+def _is_vertex_elem(ty):
+    ty = ty.replace('&mut ', '').replace('&', '').strip()
+    return ty.startswith(VERTEX_TYS)
+
+
+def _is_vertex_seq(ty):
+    ty = ty.replace('&mut ', '').replace('&', '').strip()
+    return (ty.startswith('[') or ty.startswith('std::vec::Vec<') or ty.startswith('smallvec::SmallVec<')) and \
+        any(v in ty for v in VERTEX_TYS)
+
+
+def _orderhash(ctx, cfg, prog, mod):
+    """ORDERHASH: a value computed from the vertex *set* (shuffle seed, rebuild seed) must not depend on the order in
+    which the vertices are listed.  Feeding vertices one after the other into one hasher state does: so wherever a
+    `Vertex` is hashed inside a loop, the hasher is created inside that loop (a per-element hash, to be combined
+    canonically - see the sort requirement below), or the iterated sequence has a sort in its content slice; a whole
+    slice / Vec of vertices is never hashed at once unless sorted; and every `stable_hash_u64_slice` over per-vertex
+    hashes outside the flip code is over a sorted buffer."""
+    import loops
+    ctx.rule('ORDERHASH', 'hashes over the vertex set are combined independently of the listing order')
+    n = 0
+
+    def sorted_content(b, al, local):
+        tt = None
+        leaves, _ = valueflow.content_sources(b, al, local)
+        for l in leaves:
+            if l[0] == 'call':
+                last = (l[1].callee or l[1].resolved or '').rsplit('::', 1)[-1]
+                if last.startswith('sort'):
+                    return True
+        return False
+
+    for q, b in sorted(prog.bodies.items()):
+        if '::tests::' in q or not b.file.startswith('src/'):
+            continue
+        al = None
+        lps = None
+        for bb, t in b.calls():
+            name = t.callee or t.resolved or ''
+            last = name.rsplit('::', 1)[-1]
+            site = '%s:%d' % (b.file, t.line)
+            if name.endswith('::stable_hash_u64_slice') and not q.startswith('core::algorithms::flips::') and \
+                    t.args and t.args[0].place is not None:
+                al = al or mod.aliases(q)
+                n += 1
+                tt = al.operand_target(t.args[0])
+                roots_ = [t.args[0].place.local] + ([tt[0]] if tt is not None else [])
+                ok = any(sorted_content(b, al, r) for r in roots_) or any(1 <= r <= b.nargs for r in roots_)
+                ctx.ob('ORDERHASH', '%s|stable_hash' % (b.root or q), cfg, ok,
+                       'buffer handed to stable_hash_u64_slice %s' % (
+                           'is sorted (or a parameter, judged at the caller)' if ok else
+                           'has no sort in its content slice: the combined hash depends on the order in which the elements '
+                           'were produced (the caller\'s listing order)'), site=site)
+                continue
+            if last != 'hash' or len(t.args) < 2 or t.args[0].place is None or t.args[1].place is None:
+                continue
+            a0 = b.locals[t.args[0].place.local]
+            if _is_vertex_seq(a0):
+                al = al or mod.aliases(q)
+                n += 1
+                tt = al.operand_target(t.args[0])
+                roots_ = [t.args[0].place.local] + ([tt[0]] if tt is not None else [])
+                ok = any(sorted_content(b, al, r) for r in roots_)
+                ctx.ob('ORDERHASH', '%s|slice' % (b.root or q), cfg, ok,
+                       'a whole vertex sequence is hashed at once; %s' % ('it is sorted first' if ok else
+                       'nothing sorts it: the hash depends on the listing order'), site=site)
+                continue
+            if not _is_vertex_elem(a0):
+                continue
+            lps = lps if lps is not None else loops.natural_loops(b)
+            inl = [(h, nodes) for h, nodes in lps.items() if bb in nodes]
+            if not inl:
+                continue
+            al = al or mod.aliases(q)
+            n += 1
+            ht = al.operand_target(t.args[1])
+            hroot = ht[0] if ht is not None else t.args[1].place.local
+            hdefs = {d[0] for d in b.defs.get(hroot, [])}
+            # innermost loop containing the call
+            h, nodes = min(inl, key=lambda x: len(x[1]))
+            per_elem = bool(hdefs & nodes)
+            seq_sorted = False
+            if not per_elem:
+                for nb in nodes:
+                    nt = b.blocks[nb].term
+                    if nt.k == 'call' and (nt.callee or nt.resolved or '').rsplit('::', 1)[-1] == 'next' and nt.args and \
+                            nt.args[0].place is not None:
+                        it = al.operand_target(nt.args[0])
+                        for r in [nt.args[0].place.local] + ([it[0]] if it is not None else []):
+                            if sorted_content(b, al, r):
+                                seq_sorted = True
+            ok = per_elem or seq_sorted
+            ctx.ob('ORDERHASH', '%s|loop' % (b.root or q), cfg, ok,
+                   'vertices are hashed in a loop with %s' % (
+                       'a hasher created per element' if per_elem else 'one hasher over a sorted sequence' if seq_sorted else
+                       'ONE hasher state carried across the iterations of an unsorted sequence: the result depends on the order '
+                       'in which the caller listed the vertices (seeds derived from it make the shuffled-retry / rebuild path '
+                       'order-dependent under the Hilbert / Morton / lexicographic orderings)'), site=site)
+    ctx.floor('hash computations over the vertex set', 4, n, cfg)
